@@ -51,6 +51,8 @@ func genConfig(job *simkit.Job, rng *simkit.RNG, idx int64) (Config, []Action, b
 		cfg.ReadErrs = []string{"eof"}
 	}
 	cfg.DeriveCtx = rng.Chance(1, 2)
+	cfg.IOSameHost = rng.Chance(1, 3)
+	cfg.LogPark = rng.Chance(1, 3)
 	cfg.Listeners = rng.Intn(3)
 	cfg.MaxSteps = rng.Range(15, 120)
 	cfg.MaxAttempts = rng.Range(2, 40)
